@@ -404,6 +404,14 @@ def run_real(c, rng=None, signals_factory=None, alpha_factory=None, csv_dir=None
                     out.alloc_df = dict(index=[str(d) for d in adf.index], columns=sorted(adf.columns),
                                         rows=[dict((col, (None if v != v else float(v))) for col, v in row.items())
                                               for _i, row in adf.iterrows()])
+                # the accessors asked a second time: the frames must not change
+                edf2 = sess.get_equity_curve()
+                if [str(d) for d in edf2.index] != out.equity_df_dates or [float(v) for v in edf2["Equity"]] != out.extra["equity_df_values"]:
+                    out.extra["frame_error"] = "get_equity_curve() called twice returns different frames"
+                if out.allocs:
+                    adf2 = sess.get_target_allocations()
+                    if [str(d) for d in adf2.index] != out.alloc_df["index"] or sorted(adf2.columns) != out.alloc_df["columns"]:
+                        out.extra["frame_error"] = "get_target_allocations() called twice returns different frames"
             except Exception as e:
                 out.extra["frame_error"] = "%s: %s" % (type(e).__name__, e)
         if keep_session:
